@@ -354,7 +354,7 @@ def run_chunk(chunk):
     def attempt(items):
         text = "\n".join("rule r%d { %s condition: %s }" % (idx, strdecl(ids), src) for (idx, tag, src, exp, ids) in items)
         cmds = compile_cmds(text)
-        rep = w.batch(cmds + ["scan target=s0 via=mem ml=0 data=" + yv.hx(b) for b in BUFS])
+        rep = w.batch(cmds + ["scan target=s0 via=mem ml=0 data=" + yv.hx(b) for b in BUFS] + ["scan target=s0 via=mem ml=0 flags=1 data=" + yv.hx(b) for b in BUFS])
         add = rep[len(cmds) - 4]
         if add["errors"]:
             return add, None
@@ -378,7 +378,7 @@ def run_chunk(chunk):
             h = len(items) // 2; handle(items[:h]); handle(items[h:]); return
         for it in items:
             got = [v.get("r%d" % it[0], v.get("__rc")) for v in verd]
-            res.append((it, "ok", got))
+            res.append((it, "ok", got))       # len(BUFS) normal-mode verdicts followed by len(BUFS) fast-mode verdicts
     handle(chunk)
     return res
 
@@ -478,11 +478,12 @@ def main():
             if status == "cerr":
                 d["rejected"] += 1
                 ck.violation("C04:well-typed-condition-rejected:" + tag, dict(condition=src, messages=got)); continue
-            d["evaluations"] += len(BUFS)
-            ck.cov["evaluations"] += len(BUFS)
+            d["evaluations"] += 2 * len(BUFS)
+            ck.cov["evaluations"] += 2 * len(BUFS)
             if len(set(exp)) > 1 or any(exp): nontriv += 1
-            for b, e_, g_ in zip(BUFS, exp, got):
+            for k_, (b, e_, g_) in enumerate(zip(BUFS + BUFS, exp + exp, got)):
                 if e_ != g_:
+                    if k_ >= len(BUFS): tag += ":fast-mode"          # SCAN_FLAGS_FAST_MODE may drop matches only where no condition can tell
                     ck.violation("C04:verdict:" + tag, dict(condition=src, buffer_hex=b.hex(), expected=e_, observed=g_,
                                                             replay="rule r { %s condition: %s }  (import \"tests\"; externals s0..s4 = '', a, A, ab, b)" % (STRDECL, src)))
                     break
